@@ -62,4 +62,7 @@ class AttrDict:
         if key in self._PROTECTED_KEYS or key.startswith("__"):
             super().__delattr__(key)
         else:
-            self.__delitem__(key)
+            try:
+                self.__delitem__(key)
+            except KeyError as e:
+                raise AttributeError(e)
